@@ -179,10 +179,18 @@ def gen_body(rng, fs, own_params, callees, modes_pool, top=False):
         for _ in range(rng.choice([1, 1, 2, 3, 5]) if top else rng.choice([1, 1, 2])):
             call = gen_call(rng, c, own_params, vars_)
             if ivars and rng.random() < 0.5:
-                used = set(m.get("m") for m in call["modes"])
+                # integer variables as call-site modes - but the mode list stays injective
+                # (what a subroutine applied to the same mode twice means is not settled by
+                # the statement, so it is never generated)
+                ival = dict((it["name"], it["e"]["c"]) for it in body if it["k"] == "var" and it["type"] == "int")
                 for pos in range(len(call["modes"])):
                     if rng.random() < 0.5:
-                        call["modes"][pos] = {"lv": rng.choice(ivars), "plus": rng.randrange(0, 3)}
+                        cand = {"lv": rng.choice(ivars), "plus": rng.randrange(0, 3)}
+                        trial = list(call["modes"])
+                        trial[pos] = cand
+                        vals = [m["m"] if "m" in m else ival[m["lv"]] + m.get("plus", 0) for m in trial]
+                        if len(set(vals)) == len(vals):
+                            call["modes"][pos] = cand
             stmts.append(call)
     rng.shuffle(stmts)
     if rng.random() < 0.35:
@@ -267,8 +275,30 @@ def gen_plan(rng):
             "comments": rng.random() < 0.4, "body": body}
     fs.files[mainpath] = main
     steps.append({"op": "write", "path": mainpath, "prog": main})
+    # optionally a second project with the SAME relative layout under twin/ but other bodies:
+    # loaded from its own directory with the same relative names as the first one (anything
+    # remembered per relative name or per (directory string, include string) goes stale)
+    twin = rng.random() < 0.3
+    if twin:
+        for path, prog in sorted(fs.files.items()):
+            if not isinstance(prog, dict):
+                continue
+            p2 = copy.deepcopy(prog)
+            # the twin is self-contained: an absolute spelling would pull in the first
+            # project's file, i.e. two files declaring one program name (left open)
+            p2["includes"] = [posixpath.relpath("twin/" + sp[len("<ROOT>/"):], posixpath.dirname("twin/" + path))
+                              if sp.startswith("<ROOT>/") else sp for sp in p2["includes"]]
+            for it in _flat(p2["body"]):
+                if it["k"] == "op":
+                    it["op"] = rng.choice(OPS2 if len(it["modes"]) == 2 else (OPS0 if it["args"] is None else OPS))
+                    if it["args"]:
+                        it["args"] = [{"c": const(rng), "t": e["t"]} for e in it["args"]]
+            fs.files["twin/" + path] = p2
+            steps.append({"op": "write", "path": "twin/" + path, "prog": p2, "twin": True})
     # load steps (environment = cwd x naming style), with decoys where a wrong rule would look
     nloads = rng.choice([1, 2, 2, 3, 4])
+    if twin:
+        nloads = max(nloads, 2)
     cwds = [rng.choice([maindir, "", "other", "lib", "app", "/", "x/y", "decoyhome"]) for _ in range(nloads)]
     if cfg["decoys"]:
         edges = []      # (including file dir, spelling, true target, callee name, nmodes)
@@ -321,23 +351,31 @@ def gen_plan(rng):
                 fs.files.pop(l["path"], None)
                 steps.append({"op": "unlink", "path": l["path"]})
         cwd = cwds[j]
-        steps.append({"op": "chdir", "path": cwd})
         style = rng.choice(["abs", "rel", "rel", "loads"])
+        lm, lmdir = mainpath, maindir
+        if twin and (j < 2 or rng.random() < 0.5):
+            # the first two loads alternate between the two projects, each from its own
+            # directory under the same relative name
+            if (j % 2 == 1) if j < 2 else rng.random() < 0.5:
+                lm, lmdir = "twin/" + mainpath, posixpath.normpath(posixpath.join("twin", maindir))
+            if j < 2 or rng.random() < 0.6:
+                cwd, style = lmdir, "rel"
+        steps.append({"op": "chdir", "path": cwd})
         st = {"out": "o%d" % j, "cwd": cwd}
         if style == "loads":
-            m2 = copy.deepcopy(fs.files[mainpath])
+            m2 = copy.deepcopy(fs.files[lm])
             m2["includes"] = []
-            for sp in fs.files[mainpath]["includes"]:
+            for sp in fs.files[lm]["includes"]:
                 try:
-                    m2["includes"].append("<ROOT>/" + M.resolve(fs, maindir, sp))
+                    m2["includes"].append("<ROOT>/" + M.resolve(fs, lmdir, sp))
                 except M.Unknown:
                     m2["includes"].append(sp)
             st.update({"op": "loads", "prog": m2})
         else:
-            st.update({"op": "load", "path": mainpath, "style": style})
+            st.update({"op": "load", "path": lm, "style": style})
             if style == "rel" and rng.random() < 0.3:
                 st["dot"] = True
-            if link and rng.random() < 0.6 and maindir == link["target"] and link_safe(fs, mainpath):
+            if link and lm == mainpath and rng.random() < 0.6 and maindir == link["target"] and link_safe(fs, mainpath):
                 # name the main file through the link (<link>/main.xbb); see spell() for why
                 # '..' never follows the link and why the file must be "link safe"
                 name = link["path"] + "/main.xbb"
@@ -349,15 +387,19 @@ def gen_plan(rng):
         if cfg["faults"] and rng.random() < 0.6:
             files = [p for p, v in fs.files.items() if isinstance(v, dict)]
             if style == "loads":
-                files = [p for p in files if p != mainpath]
+                files = [p for p in files if p != lm]
             if files:
                 p = rng.choice(sorted(files))
                 k = rng.random()
                 f = {"kind": "io", "path": p, "every": True}
                 if k < 0.4:
                     f["what"] = rng.choice(["ENOENT", "EACCES", "EIO", "EMFILE", "EISDIR"])
-                elif k < 0.75:
+                elif k < 0.6:
                     f["what"] = "tear"
+                    f["after_item"] = rng.randint(0, max(0, len(fs.files[p]["body"]) - 1))
+                elif k < 0.8:
+                    # one short read at a statement boundary, the rest of the file follows
+                    f["what"] = "short"
                     f["after_item"] = rng.randint(0, max(0, len(fs.files[p]["body"]) - 1))
                 else:
                     withc = [q for q in sorted(files) if fs.files[q].get("comments")]
@@ -380,12 +422,13 @@ def _num(r):
         return float(int(r[1]))
     if t == "float":
         return float.fromhex(r[1])
-    if t == "bool" or t == "npbool":
+    if t == "bool":
         return None
-    if t == "np":
-        return _num(r[2])
     if t == "complex":
-        return None
+        return float.fromhex(r[1]) if float.fromhex(r[2]) == 0.0 else None
+    if t == "sym" and not r[2] and isinstance(r[3], list) and r[3][0] != "uneval":
+        # a parameter-free symbolic number (e.g. sympy.Float): its value is what counts
+        return float(r[3][0]) if float(r[3][1]) == 0.0 else None
     return None
 
 
@@ -426,8 +469,12 @@ def compare_ops(got_ops, got_modes, got_len, want_ops, want_modes):
             if len(g["args"]) != len(w["args"]) or any(not _close(a[0], b) for a, b in zip(g["args"], w["args"])):
                 return "operation %d (%s): positional arguments %s, inlining gives %s" % (
                     n, g["op"], [a[0] if a[0] is not None else a[1] for a in g["args"]], w["args"])
-            if [k for k, _ in g["kwargs"]] != [k for k, _ in w["kwargs"]] or \
-                    any(not _close(a[1][0], b[1]) for a, b in zip(g["kwargs"], w["kwargs"])):
+            gk = dict((k, v) for k, v in g["kwargs"])
+            wk = dict((k, v) for k, v in w["kwargs"])
+            # same keys, numerically equal values; the order of the keys is not part of
+            # "equivalent to inlining" (it is covered by serialisation determinism elsewhere)
+            if set(gk) != set(wk) or len(g["kwargs"]) != len(w["kwargs"]) or \
+                    any(not _close(gk[k][0], wk[k]) for k in wk):
                 return "operation %d (%s): keyword arguments %s, inlining gives %s" % (
                     n, g["op"], [[k, v[0] if v[0] is not None else v[1]] for k, v in g["kwargs"]], w["kwargs"])
     if [int(m) for m in got_modes] != want_modes:
@@ -521,6 +568,9 @@ def run(plan, ctx):
                         accept = [M.expected(f2, mainpath), ("raise", "torn file")]
                 elif what == "flip":
                     accept = [("raise", "undecodable byte"), want_free]
+                elif what == "short":
+                    # nothing is lost by a short read: the whole file must be used (or an error raised)
+                    accept = [want_free, ("raise", "short read")]
                 else:
                     accept = [("raise", "read error")]
                     if fp != mainpath and fp not in M.called_programs(f, mainpath) and want_free[0] == "ok":
@@ -648,6 +698,12 @@ def describe():
                        "stubs": [], "interposers": ["builtins.open wrapper (fault injection only)"],
                        "reference_model": "bbsim/model07.py (no blackbird import)"},
         "assumptions": ["constructs the statement of C07 leaves open are not generated (registers inside "
-                        "included programs, one program name declared by two included files, symlinks, "
-                        "circular includes, relative includes in loads())"],
+                        "included programs, one program name declared by two included files, '..' after a "
+                        "symbolic link, a call-site mode list naming one mode twice, circular includes, "
+                        "relative includes in loads(), transitive use of a nested include by the top file)",
+                        "a call whose keyword set differs from the callee's parameters (missing or extra "
+                        "keyword), a wrong number of modes, and arguments given to a parameter-free program "
+                        "must raise (property C11 says such calls are never turned into a program)",
+                        "values are compared numerically (1e-9 relative); keyword order inside an operation "
+                        "is not compared"],
     }
